@@ -60,9 +60,13 @@ def mutate_chars(rng, s, pool, n=None):
 
 def blow_up_number(rng, s, pool):
     """Replace one numeric field of s (a digit run, or put one after a sign / H / ':' / '%') by a huge digit run."""
-    k = rng.choice([10, 100, 309, 310, 400, 640, 999, 1000, 1001, 4299, 4300, 4301, 6000])
+    k = rng.choice([10, 30, 64, 100, 309, 310, 400, 640, 999, 1000, 1001, 4299, 4300, 4301, 6000])
     d = rng.choice("123456789") + (rng.choice("0123456789") * (k - 1) if rng.random() < 0.7 else
                                    "".join(rng.choice("0123456789") for _ in range(k - 1)))
+    if rng.random() < 0.3:
+        # something that does not belong there right after the digit run: whatever pattern matched the digits has to
+        # give them back (a pattern that can split a digit run in many ways then backtracks)
+        d += rng.choice(["x", "?", ":", "+-", " ", "\u00b2", "H:", "@", "."])
     spots = [i for i, ch in enumerate(s) if ch in "0123456789+-H:%@["]
     if not spots:
         return s + d
@@ -91,9 +95,11 @@ def hostile_selfies(rng, seeds=()):
     if x < 0.76 and seeds:
         return "digits", blow_up_number(rng, rng.choice(list(seeds) + ["[13CH3][N+1][Fe+2][C@@H1][=Ring2][Branch3]"]), None)
     if x < 0.80:
-        k = rng.choice([10, 100, 640, 1000, 1001, 4299, 4300, 4301, 6000])
+        k = rng.choice([10, 30, 64, 100, 640, 1000, 1001, 4299, 4300, 4301, 6000])
         form = rng.choice(["[%sC]", "[C+%s]", "[C-%s]", "[%sCH1-%s]", "[CH%s]", "[C@@H1+%s]", "[=%sFe]", "[%sCexpl]", "[C+%sexpl]", "[Ring%s]", "[Branch%s]", "[C:%sexpl]"])
         d = rng.choice("123456789") * k if rng.random() < 0.7 else "".join(rng.choice("0123456789") for _ in range(k))
+        if rng.random() < 0.35:
+            d += rng.choice(["x", "?", ":", "+-", " ", "\u00b2", "H:", "@", ".", ":x", "-+"])     # the field cannot end here
         return "digits", rng.choice(["", "[C]", "[C][Branch1]"]) + form.replace("%s", d) + rng.choice(["", "[C]"])
     if x < 0.84:
         n = rng.choice([50, 299, 301, 600, 900, 980, 1100, 2500])
@@ -125,9 +131,11 @@ def hostile_smiles(rng, seeds=()):
                                                                       "C[C@@H]1CC[NH2+]C1", "[Fe+2].[O-]C(=O)c1ccccc1", "C%12CCC%12", "[CH3:7]O"]
         return "digits", blow_up_number(rng, rng.choice(pool), None)
     if x < 0.77:
-        k = rng.choice([10, 100, 640, 1000, 1001, 4299, 4300, 4301, 6000])
+        k = rng.choice([10, 30, 64, 100, 640, 1000, 1001, 4299, 4300, 4301, 6000])
         form = rng.choice(["[%sC]", "[C+%s]", "[C-%s]", "[%sCH-%s]", "[CH%s]", "[C:%s]", "C%%%s", "C%s", "[%sc]1ccccc1"])
         d = rng.choice("123456789") * k if rng.random() < 0.7 else "".join(rng.choice("0123456789") for _ in range(k))
+        if rng.random() < 0.35:
+            d += rng.choice(["x", "?", ":", "+-", " ", "\u00b2", "H:", "@", ".", ":x", "-+"])     # the field cannot end here
         return "digits", rng.choice(["", "C", "C("]) + form.replace("%s", d) + rng.choice(["", "C", ")C"])
     if x < 0.80:
         n = rng.choice([50, 299, 301, 600, 900, 990, 1100, 2500])
